@@ -25,6 +25,7 @@ func init() {
 		scdir := fs.String("scenarios", "", "directory to save the scenarios to")
 		queries := fs.Int("queries", 0, "up to this many queries after every consensus call")
 		prestart := fs.Float64("prestart", 0, "probability of a restart after a commit")
+		pcheck := fs.Float64("pcheck", 0.08, "probability that a generated transaction only goes to CheckTx")
 		_ = fs.Parse(args)
 		f, err := os.Create(*out)
 		if err != nil {
@@ -43,7 +44,7 @@ func init() {
 			p := appdrv.DefaultProfile()
 			p.Blocks, p.MaxTxs = *blocks, *maxtx
 			p.BusyFirstBlock = i%8 == 7
-			p.Queries, p.PRestart = *queries, *prestart
+			p.Queries, p.PRestart, p.PCheck = *queries, *prestart, *pcheck
 			if *evm {
 				p.W["contract"] = 7
 			}
